@@ -187,6 +187,14 @@ exception, instead of calling exit.
                              add_help=add_help,
                              allow_abbrev=allow_abbrev)
 
+    def _get_values(self, action, arg_strings):
+        # Some versions of argparse drop an explicit option value
+        # '--' (e.g. '-o=--') and store an empty list instead of
+        # a converted value.
+        if action.option_strings and list(arg_strings) == ['--']:
+            raise argparse.ArgumentError(action, "expected one argument")
+        return super()._get_values(action, arg_strings)
+
     def error(self, message):
         message = str(message)
         errstr = ["ERROR: " + x for x in message.splitlines()]
